@@ -548,6 +548,499 @@ theorem c16_ShardStateUnsplit_roundtrip : Lawful shardStateUnsplit := by unfold 
 @[instance]
 theorem c16_ShardState_roundtrip : Lawful shardState := by unfold shardState shardStateAlts; infer_instance
 
+
+/-! ### the read trace is an exact read script of the encoding (trace tie, see design/C16.md)
+
+`Traced T` : for every value `v` that the spec encoder writes as `f`, the read trace `T.trace v` — the sequence of typed
+reads (kind, width), reference entries/exits and raw references that the harness compares with the reads the library's
+parser performs — replayed on `f` followed by any continuation consumes exactly `f`: the widths of the reads of each
+cell add up to that cell's bits, every `enter` finds an ordinary cell, every entered cell is exhausted at its `leave`. -/
+
+/-- The trace is not an unverified side channel: replaying `c.trace v` as a read script on the encoding of `v` (followed by
+    any trailer `k`, inside any stack `st` of enclosing cells) succeeds and leaves exactly the trailer. -/
+theorem c16_trace_accounts_for_encoding (c : Codec) [h : Traced c] (v : Val) (f : Frag) (he : c.enc v = some f)
+    (k : Frag) (st : List Frag) : replay (c.trace v) ((f ++ k) :: st) = some (k :: st) :=
+  h.law v f he k st
+
+/-- non-vacuity: the trace of a concrete TrStoragePhase value (Grams = VarUInteger 16 with a 4-bit length prefix, a Maybe bit,
+    a 2-bit tag), literally -/
+example : trStoragePhase.trace (.record [("storage_fees_collected", .int 1000), ("storage_fees_due", .unit),
+    ("status_change", .con "acst_frozen" .unit)]) =
+    [.push "storage_fees_collected", .rd "v4" 20, .pop, .push "storage_fees_due", .rd "c" 1, .pop,
+     .push "status_change", .rd "c" 2, .push "$acst_frozen", .pop, .pop] := by decide
+
+/-- … replayed on its 23-bit encoding followed by a 2-bit trailer it leaves exactly the trailer -/
+example : (replay [.push "storage_fees_collected", .rd "v4" 20, .pop, .push "storage_fees_due", .rd "c" 1, .pop,
+     .push "status_change", .rd "c" 2, .push "$acst_frozen", .pop, .pop]
+    [⟨[false,false,true,false, false,false,false,false,false,false,true,true, true,true,true,false,true,false,false,false,
+       false, true,false, true, true], []⟩]).map (·.map (·.bits)) = some [[true, true]] := by decide
+
+/-- … and the replay is discriminating: a script that reads one bit less does NOT leave the trailer -/
+example : (replay [.rd "v4" 19, .rd "c" 1, .rd "c" 2]
+    [⟨[false,false,true,false, false,false,false,false,false,false,true,true, true,true,true,false,true,false,false,false,
+       false, true,false, true, true], []⟩]).map (·.map (·.bits)) ≠ some [[true, true]] := by decide
+
+/-- a reference: the trace of a ShardAccount with `account_none` enters the referenced cell, reads its 1-bit tag and leaves it
+    exhausted; replay fails if the cell had a second bit -/
+example : shardAccount.trace (.record [("account", .con "account_none" .unit), ("last_trans_hash", .bits (List.replicate 256 true)),
+    ("last_trans_lt", .int 5)]) =
+    [.push "account", .enter, .rd "c" 1, .push "$account_none", .pop, .leave, .pop,
+     .push "last_trans_hash", .rd "b" 256, .pop, .push "last_trans_lt", .rd "u" 64, .pop] := by decide
+example : (replay [.enter, .rd "c" 1, .leave] [⟨[], [Cell.mk false [false, true] []]⟩]).isNone = true := by decide
+
+/-- read trace of `bits256` = exact read script of its encoding -/
+@[instance]
+theorem c16_bits256_traced : Traced bits256 := by unfold bits256; infer_instance
+
+/-- read trace of `msgAddressExt` = exact read script of its encoding -/
+@[instance]
+theorem c16_MsgAddressExt_traced : Traced msgAddressExt := by
+  unfold msgAddressExt msgAddressExtAlts addrNoneAlt addrExternAlt
+  infer_instance
+
+/-- read trace of `msgAddressInt` = exact read script of its encoding -/
+@[instance]
+theorem c16_MsgAddressInt_traced : Traced msgAddressInt := by
+  unfold msgAddressInt msgAddressIntAlts addrStdAlt addrVarAlt anycast
+  infer_instance
+
+/-- read trace of `extraCurrencyCollection` = exact read script of its encoding -/
+@[instance]
+theorem c16_ExtraCurrencyCollection_traced : Traced extraCurrencyCollection := by
+  unfold extraCurrencyCollection
+  infer_instance
+
+/-- read trace of `currencyCollection` = exact read script of its encoding -/
+@[instance]
+theorem c16_CurrencyCollection_traced : Traced currencyCollection := by
+  unfold currencyCollection
+  infer_instance
+
+/-- read trace of `commonMsgInfo` = exact read script of its encoding -/
+@[instance]
+theorem c16_CommonMsgInfo_traced : Traced commonMsgInfo := by
+  unfold commonMsgInfo commonMsgInfoAlts
+  infer_instance
+
+/-- read trace of `tickTock` = exact read script of its encoding -/
+@[instance]
+theorem c16_TickTock_traced : Traced tickTock := by
+  unfold tickTock
+  infer_instance
+
+/-- read trace of `stateInit` = exact read script of its encoding -/
+@[instance]
+theorem c16_StateInit_traced : Traced stateInit := by
+  unfold stateInit
+  infer_instance
+
+/-- read trace of `accountStatus` = exact read script of its encoding -/
+@[instance]
+theorem c16_AccountStatus_traced : Traced accountStatus := by
+  unfold accountStatus accountStatusAlts
+  infer_instance
+
+/-- read trace of `hashUpdate` = exact read script of its encoding -/
+@[instance]
+theorem c16_HashUpdate_traced : Traced hashUpdate := by
+  unfold hashUpdate
+  infer_instance
+
+/-- read trace of `storageUsed` = exact read script of its encoding -/
+@[instance]
+theorem c16_StorageUsed_traced : Traced storageUsed := by
+  unfold storageUsed
+  infer_instance
+
+/-- read trace of `storageUsedShort` = exact read script of its encoding -/
+@[instance]
+theorem c16_StorageUsedShort_traced : Traced storageUsedShort := by
+  unfold storageUsedShort
+  infer_instance
+
+/-- read trace of `storageInfo` = exact read script of its encoding -/
+@[instance]
+theorem c16_StorageInfo_traced : Traced storageInfo := by
+  unfold storageInfo
+  infer_instance
+
+/-- read trace of `accountState` = exact read script of its encoding -/
+@[instance]
+theorem c16_AccountState_traced : Traced accountState := by
+  unfold accountState accountStateAlts
+  infer_instance
+
+/-- read trace of `accountStorage` = exact read script of its encoding -/
+@[instance]
+theorem c16_AccountStorage_traced : Traced accountStorage := by
+  unfold accountStorage
+  infer_instance
+
+/-- read trace of `account` = exact read script of its encoding -/
+@[instance]
+theorem c16_Account_traced : Traced account := by
+  unfold account accountAlts
+  infer_instance
+
+/-- read trace of `shardAccount` = exact read script of its encoding -/
+@[instance]
+theorem c16_ShardAccount_traced : Traced shardAccount := by
+  unfold shardAccount
+  infer_instance
+
+/-- read trace of `depthBalanceInfo` = exact read script of its encoding -/
+@[instance]
+theorem c16_DepthBalanceInfo_traced : Traced depthBalanceInfo := by
+  unfold depthBalanceInfo
+  infer_instance
+
+/-- read trace of `shardAccounts` = exact read script of its encoding -/
+@[instance]
+theorem c16_ShardAccounts_traced : Traced shardAccounts := by
+  unfold shardAccounts
+  infer_instance
+
+/-- read trace of `accStatusChange` = exact read script of its encoding -/
+@[instance]
+theorem c16_AccStatusChange_traced : Traced accStatusChange := by
+  unfold accStatusChange accStatusChangeAlts
+  infer_instance
+
+/-- read trace of `computeSkipReason` = exact read script of its encoding -/
+@[instance]
+theorem c16_ComputeSkipReason_traced : Traced computeSkipReason := by
+  unfold computeSkipReason computeSkipReasonAlts
+  infer_instance
+
+/-- read trace of `trStoragePhase` = exact read script of its encoding -/
+@[instance]
+theorem c16_TrStoragePhase_traced : Traced trStoragePhase := by
+  unfold trStoragePhase
+  infer_instance
+
+/-- read trace of `trCreditPhase` = exact read script of its encoding -/
+@[instance]
+theorem c16_TrCreditPhase_traced : Traced trCreditPhase := by
+  unfold trCreditPhase
+  infer_instance
+
+/-- read trace of `trComputePhase` = exact read script of its encoding -/
+@[instance]
+theorem c16_TrComputePhase_traced : Traced trComputePhase := by
+  unfold trComputePhase trComputePhaseAlts
+  infer_instance
+
+/-- read trace of `trActionPhase` = exact read script of its encoding -/
+@[instance]
+theorem c16_TrActionPhase_traced : Traced trActionPhase := by
+  unfold trActionPhase
+  infer_instance
+
+/-- read trace of `trBouncePhase` = exact read script of its encoding -/
+@[instance]
+theorem c16_TrBouncePhase_traced : Traced trBouncePhase := by
+  unfold trBouncePhase trBouncePhaseAlts
+  infer_instance
+
+/-- read trace of `splitMergeInfo` = exact read script of its encoding -/
+@[instance]
+theorem c16_SplitMergeInfo_traced : Traced splitMergeInfo := by
+  unfold splitMergeInfo
+  infer_instance
+
+/-- read trace of `extBlkRef` = exact read script of its encoding -/
+@[instance]
+theorem c16_ExtBlkRef_traced : Traced extBlkRef := by
+  unfold extBlkRef
+  infer_instance
+
+/-- read trace of `message` = exact read script of its encoding -/
+@[instance]
+theorem c16_Message_traced : Traced message := by
+  unfold message
+  infer_instance
+
+/-- read trace of `(transactionDescrF tx)` = exact read script of its encoding -/
+@[instance]
+theorem c16_TransactionDescrF_traced (tx : Codec) [Traced tx] : Traced (transactionDescrF tx) := by
+  unfold transactionDescrF transactionDescrFAlts
+  infer_instance
+
+/-- read trace of `Transaction`, every nesting budget -/
+@[instance]
+theorem c16_Transaction_traced_any_budget : ∀ budget, Traced (transactionF budget)
+  | 0 => by unfold transactionF; infer_instance
+  | budget+1 => by
+    have ih := c16_Transaction_traced_any_budget budget
+    unfold transactionF
+    infer_instance
+
+/-- read trace of `transaction` = exact read script of its encoding -/
+@[instance]
+theorem c16_Transaction_traced : Traced transaction := by unfold transaction; infer_instance
+
+/-- read trace of `transactionDescr` = exact read script of its encoding -/
+@[instance]
+theorem c16_TransactionDescr_traced : Traced transactionDescr := by unfold transactionDescr; infer_instance
+
+/-- read trace of `(blkPrevInfo m)` = exact read script of its encoding -/
+@[instance]
+theorem c16_BlkPrevInfo_traced (m : Nat) : Traced (blkPrevInfo m) := by
+  unfold blkPrevInfo
+  infer_instance
+
+/-- read trace of `accountBlock` = exact read script of its encoding -/
+@[instance]
+theorem c16_AccountBlock_traced : Traced accountBlock := by
+  unfold accountBlock
+  infer_instance
+
+/-- read trace of `shardAccountBlocks` = exact read script of its encoding -/
+@[instance]
+theorem c16_ShardAccountBlocks_traced : Traced shardAccountBlocks := by
+  unfold shardAccountBlocks
+  infer_instance
+
+/-- read trace of `intermediateAddress` = exact read script of its encoding -/
+@[instance]
+theorem c16_IntermediateAddress_traced : Traced intermediateAddress := by
+  unfold intermediateAddress intermediateAddressAlts
+  infer_instance
+
+/-- read trace of `msgMetadata` = exact read script of its encoding -/
+@[instance]
+theorem c16_MsgMetadata_traced : Traced msgMetadata := by
+  unfold msgMetadata
+  infer_instance
+
+/-- read trace of `msgEnvelope` = exact read script of its encoding -/
+@[instance]
+theorem c16_MsgEnvelope_traced : Traced msgEnvelope := by
+  unfold msgEnvelope msgEnvelopeAlts
+  infer_instance
+
+/-- read trace of `inMsg` = exact read script of its encoding -/
+@[instance]
+theorem c16_InMsg_traced : Traced inMsg := by
+  unfold inMsg inMsgAlts
+  infer_instance
+
+/-- read trace of `importFees` = exact read script of its encoding -/
+@[instance]
+theorem c16_ImportFees_traced : Traced importFees := by
+  unfold importFees
+  infer_instance
+
+/-- read trace of `outMsg` = exact read script of its encoding -/
+@[instance]
+theorem c16_OutMsg_traced : Traced outMsg := by
+  unfold outMsg outMsgAlts
+  infer_instance
+
+/-- read trace of `inMsgDescr` = exact read script of its encoding -/
+@[instance]
+theorem c16_InMsgDescr_traced : Traced inMsgDescr := by
+  unfold inMsgDescr
+  infer_instance
+
+/-- read trace of `outMsgDescr` = exact read script of its encoding -/
+@[instance]
+theorem c16_OutMsgDescr_traced : Traced outMsgDescr := by
+  unfold outMsgDescr
+  infer_instance
+
+/-- read trace of `shardIdent` = exact read script of its encoding -/
+@[instance]
+theorem c16_ShardIdent_traced : Traced shardIdent := by
+  unfold shardIdent
+  infer_instance
+
+/-- read trace of `globalVersion` = exact read script of its encoding -/
+@[instance]
+theorem c16_GlobalVersion_traced : Traced globalVersion := by
+  unfold globalVersion
+  infer_instance
+
+/-- read trace of `blkMasterInfo` = exact read script of its encoding -/
+@[instance]
+theorem c16_BlkMasterInfo_traced : Traced blkMasterInfo := by
+  unfold blkMasterInfo
+  infer_instance
+
+/-- read trace of `blockInfo` = exact read script of its encoding -/
+@[instance]
+theorem c16_BlockInfo_traced : Traced blockInfo := by
+  unfold blockInfo
+  infer_instance
+
+/-- read trace of `valueFlowIn` = exact read script of its encoding -/
+@[instance]
+theorem c16_ValueFlowIn_traced : Traced valueFlowIn := by
+  unfold valueFlowIn
+  infer_instance
+
+/-- read trace of `valueFlowOut` = exact read script of its encoding -/
+@[instance]
+theorem c16_ValueFlowOut_traced : Traced valueFlowOut := by
+  unfold valueFlowOut
+  infer_instance
+
+/-- read trace of `valueFlow` = exact read script of its encoding -/
+@[instance]
+theorem c16_ValueFlow_traced : Traced valueFlow := by
+  unfold valueFlow valueFlowAlts
+  infer_instance
+
+/-- read trace of `futureSplitMerge` = exact read script of its encoding -/
+@[instance]
+theorem c16_FutureSplitMerge_traced : Traced futureSplitMerge := by
+  unfold futureSplitMerge futureSplitMergeAlts
+  infer_instance
+
+/-- read trace of `shardDescr` = exact read script of its encoding -/
+@[instance]
+theorem c16_ShardDescr_traced : Traced shardDescr := by
+  unfold shardDescr shardDescrAlts shardDescrHead
+  simp only [List.cons_append, List.nil_append]
+  infer_instance
+
+/-- read trace of `shardHashes` = exact read script of its encoding -/
+@[instance]
+theorem c16_ShardHashes_traced : Traced shardHashes := by
+  unfold shardHashes
+  infer_instance
+
+/-- read trace of `sigPubKey` = exact read script of its encoding -/
+@[instance]
+theorem c16_SigPubKey_traced : Traced sigPubKey := by
+  unfold sigPubKey
+  infer_instance
+
+/-- read trace of `validatorDescr` = exact read script of its encoding -/
+@[instance]
+theorem c16_ValidatorDescr_traced : Traced validatorDescr := by
+  unfold validatorDescr validatorDescrAlts
+  infer_instance
+
+/-- read trace of `validatorSet` = exact read script of its encoding -/
+@[instance]
+theorem c16_ValidatorSet_traced : Traced validatorSet := by
+  unfold validatorSet validatorSetAlts
+  infer_instance
+
+/-- read trace of `catchainConfig` = exact read script of its encoding -/
+@[instance]
+theorem c16_CatchainConfig_traced : Traced catchainConfig := by
+  unfold catchainConfig catchainConfigAlts
+  infer_instance
+
+/-- read trace of `consensusConfig` = exact read script of its encoding -/
+@[instance]
+theorem c16_ConsensusConfig_traced : Traced consensusConfig := by
+  unfold consensusConfig consensusConfigAlts consensusNewHead consensusTail
+  simp only [List.cons_append, List.nil_append]
+  infer_instance
+
+/-- read trace of `validatorInfo` = exact read script of its encoding -/
+@[instance]
+theorem c16_ValidatorInfo_traced : Traced validatorInfo := by
+  unfold validatorInfo
+  infer_instance
+
+/-- read trace of `keyExtBlkRef` = exact read script of its encoding -/
+@[instance]
+theorem c16_KeyExtBlkRef_traced : Traced keyExtBlkRef := by
+  unfold keyExtBlkRef
+  infer_instance
+
+/-- read trace of `keyMaxLt` = exact read script of its encoding -/
+@[instance]
+theorem c16_KeyMaxLt_traced : Traced keyMaxLt := by
+  unfold keyMaxLt
+  infer_instance
+
+/-- read trace of `oldMcBlocksInfo` = exact read script of its encoding -/
+@[instance]
+theorem c16_OldMcBlocksInfo_traced : Traced oldMcBlocksInfo := by
+  unfold oldMcBlocksInfo
+  infer_instance
+
+/-- read trace of `counters` = exact read script of its encoding -/
+@[instance]
+theorem c16_Counters_traced : Traced counters := by
+  unfold counters
+  infer_instance
+
+/-- read trace of `creatorStats` = exact read script of its encoding -/
+@[instance]
+theorem c16_CreatorStats_traced : Traced creatorStats := by
+  unfold creatorStats
+  infer_instance
+
+/-- read trace of `blockCreateStats` = exact read script of its encoding -/
+@[instance]
+theorem c16_BlockCreateStats_traced : Traced blockCreateStats := by
+  unfold blockCreateStats blockCreateStatsAlts
+  infer_instance
+
+/-- read trace of `configParams` = exact read script of its encoding -/
+@[instance]
+theorem c16_ConfigParams_traced : Traced configParams := by
+  unfold configParams
+  infer_instance
+
+/-- read trace of `mcStateExtra` = exact read script of its encoding -/
+@[instance]
+theorem c16_McStateExtra_traced : Traced mcStateExtra := by
+  unfold mcStateExtra
+  infer_instance
+
+/-- read trace of `shardFeeCreated` = exact read script of its encoding -/
+@[instance]
+theorem c16_ShardFeeCreated_traced : Traced shardFeeCreated := by unfold shardFeeCreated; infer_instance
+
+/-- read trace of `shardFees` = exact read script of its encoding -/
+@[instance]
+theorem c16_ShardFees_traced : Traced shardFees := by unfold shardFees; infer_instance
+
+/-- read trace of `cryptoSignaturePair` = exact read script of its encoding -/
+@[instance]
+theorem c16_CryptoSignaturePair_traced : Traced cryptoSignaturePair := by unfold cryptoSignaturePair; infer_instance
+
+/-- read trace of `mcBlockExtra` = exact read script of its encoding -/
+@[instance]
+theorem c16_McBlockExtra_traced : Traced mcBlockExtra := by
+  unfold mcBlockExtra
+  infer_instance
+
+/-- read trace of `blockExtra` = exact read script of its encoding -/
+@[instance]
+theorem c16_BlockExtra_traced : Traced blockExtra := by
+  unfold blockExtra
+  infer_instance
+
+/-- read trace of `block` = exact read script of its encoding -/
+@[instance]
+theorem c16_Block_traced : Traced block := by
+  unfold block
+  infer_instance
+
+/-- read trace of `libDescr` = exact read script of its encoding -/
+@[instance]
+theorem c16_LibDescr_traced : Traced libDescr := by unfold libDescr; infer_instance
+
+/-- read trace of `shardStateUnsplitBody` = exact read script of its encoding -/
+@[instance]
+theorem c16_ShardStateUnsplitBody_traced : Traced shardStateUnsplitBody := by unfold shardStateUnsplitBody; infer_instance
+
+/-- read trace of `shardStateUnsplit` = exact read script of its encoding -/
+@[instance]
+theorem c16_ShardStateUnsplit_traced : Traced shardStateUnsplit := by unfold shardStateUnsplit; infer_instance
+
+/-- read trace of `shardState` = exact read script of its encoding -/
+@[instance]
+theorem c16_ShardState_traced : Traced shardState := by unfold shardState shardStateAlts; infer_instance
+
 /-- The spec encoding is unambiguous: two values with the same encoding (bits and refs) are the same value — so
     "the field values an independent decoder reads" from an encoding are uniquely determined. -/
 theorem c16_enc_injective (c : Codec) [h : Lawful c] (v₁ v₂ : Val) (f : Frag)
